@@ -16,6 +16,7 @@ thread_local! {
     static GC_MANUAL: Cell<bool> = const { Cell::new(false) };
     static QUARANTINE: Cell<bool> = const { Cell::new(false) };
     static ALLOC_SEQ: Cell<u32> = const { Cell::new(0) };
+    static INSTR_COUNT: Cell<u64> = const { Cell::new(0) };
 }
 
 /// Id source used (per thread) instead of the process-global counters for
@@ -75,4 +76,13 @@ pub(crate) fn next_alloc_seq() -> u32 {
         c.set(v + 1);
         v
     })
+}
+
+/// Number of VM instructions executed on this OS thread so far (every call of the interpreter's
+/// `step`, whichever green thread it belongs to); independent of the runtime's own step accounting.
+pub fn instr_count() -> u64 {
+    INSTR_COUNT.with(|c| c.get())
+}
+pub(crate) fn count_instr() {
+    INSTR_COUNT.with(|c| c.set(c.get() + 1));
 }
